@@ -202,7 +202,9 @@ def _apply(w, f, i, kind, s, obj, where, before, desc, safe_query):
             return
         same_function("evict", new, obj, (w.salt, i), where)
         s.obj = new
-        fired = ref.cache_mask(new) != before or s.kind not in ("measure", "pdf")
+        # a rebuilt density has its precision, information vector and normaliser recomputed from (Sigma, mu):
+        # hidden state changed even though the cache mask is the same; a cold measure rebuilt cold did not change
+        fired = ref.cache_mask(new) != before or s.kind != "measure"
     elif kind == "restore":
         try:
             new = restore(obj, f["via"])
